@@ -496,8 +496,15 @@ pub fn known_device_id(id: u32) -> bool {
 
 /// Probe: returns violations.
 pub fn run_probe(magic: u32, version: u32, device_id: u32, size: usize) -> (bool, Vec<(String, String)>) {
+    run_probe_status(magic, version, device_id, size, 0)
+}
+
+/// The same with the device's Status register holding `status` when it is probed (a device that
+/// firmware or a previous owner left initialised).
+pub fn run_probe_status(magic: u32, version: u32, device_id: u32, size: usize, status: u32) -> (bool, Vec<(String, String)>) {
     hal::reset();
-    let d = VirtioDev::new(DeviceType::Block, 0, 1, 8, vec![]);
+    let mut d = VirtioDev::new(DeviceType::Block, 0, 1, 8, vec![]);
+    d.status = status;
     let dev: DevRc = Rc::new(RefCell::new(d));
     let trace: Trace = Rc::new(RefCell::new(vec![]));
     let mut w = RegWorld::new(trace.clone());
@@ -548,6 +555,9 @@ pub fn run_probe(magic: u32, version: u32, device_id: u32, size: usize) -> (bool
                 _ => {}
             }
         }
+    }
+    if dev.borrow().status != status || dev.borrow().resets != 0 {
+        out.push(("probe-writes".into(), format!("probing changed the device status from {:#x} to {:#x} ({} resets)", status, dev.borrow().status, dev.borrow().resets)));
     }
     for a in &tr {
         if a.write {
